@@ -621,5 +621,108 @@ theorem fresh_run (s : Sys) (steps : List Step) (h : Fresh s) : Fresh (run s ste
   | nil => exact h
   | cons st rest ih => exact ih _ (fresh_step s st h)
 
+/-! ## a response is written on the connection its request arrived on -/
+
+theorem pr_mem_deferred' (s : Sys) (c rid : Nat) (r : Resp) (d : Nat × Nat)
+    (h : d ∈ (processResponse s c rid r).deferred) : d ∈ s.deferred ∨ d = (c, rid) := by
+  unfold processResponse at h
+  revert h
+  cases r.task <;> cases r.sharedKey <;> cases r.pairingRemoved <;> cases r.pairingChanged <;>
+    simp only [Bool.false_eq_true, if_true, if_false, List.mem_append, List.mem_singleton] <;> intro h <;>
+    first
+      | exact Or.inl h
+      | (rcases h with h | rfl
+         · exact Or.inl h
+         · exact Or.inr rfl)
+
+/-- request `rid` has been dispatched, and whatever is or will be written for it goes to `conn` -/
+structure Own (conn rid : Nat) (s : Sys) : Prop where
+  lt : rid < s.nextRid
+  log : ∀ c, Obs.write c rid ∈ s.log → c = conn
+  deferred : ∀ d ∈ s.deferred, d.2 = rid → d.1 = conn
+
+theorem own_request (s : Sys) (conn : Nat) (r : Req) (hf : Fresh s) (hc : isClosed s conn = false) :
+    Own conn s.nextRid (step s (.request conn r)) := by
+  simp only [step, hc, Bool.false_eq_true, if_false]
+  refine ⟨by rw [pr_nextRid]; exact Nat.lt_succ_self _, ?_, ?_⟩
+  · intro c h
+    rcases pr_mem_log' _ _ _ _ _ h with h | h | h
+    · exact absurd (hf.log _ h s.nextRid rfl) (Nat.lt_irrefl _)
+    · simp only [Obs.write.injEq] at h; exact h.1
+    · cases h
+  · intro d hd he
+    rcases pr_mem_deferred' _ _ _ _ _ hd with hd | hd
+    · exact absurd (he ▸ hf.deferred d hd) (Nat.lt_irrefl _)
+    · rw [hd]
+
+theorem own_step (conn rid : Nat) (s : Sys) (st : Step) (h : Own conn rid s) : Own conn rid (step s st) := by
+  cases st with
+  | request conn' r =>
+    simp only [step]
+    by_cases hc : isClosed s conn' = true
+    · simp only [hc, if_true]; exact h
+    · simp only [hc, Bool.false_eq_true, if_false]
+      refine ⟨by rw [pr_nextRid]; exact Nat.lt_succ_of_lt h.lt, ?_, ?_⟩
+      · intro c hm
+        rcases pr_mem_log' _ _ _ _ _ hm with hm | hm | hm
+        · exact h.log c hm
+        · simp only [Obs.write.injEq] at hm
+          exact absurd h.lt (by rw [hm.2]; exact Nat.lt_irrefl _)
+        · cases hm
+      · intro d hd he
+        rcases pr_mem_deferred' _ _ _ _ _ hd with hd | hd
+        · exact h.deferred d hd he
+        · rw [hd] at he
+          exact absurd h.lt (by rw [← he]; exact Nat.lt_irrefl _)
+  | taskDone i =>
+    simp only [step]
+    cases hd : s.deferred[i]? with
+    | none => exact h
+    | some cr =>
+      obtain ⟨conn', rid'⟩ := cr
+      have hsub : ∀ d ∈ s.deferred.eraseIdx i, d.2 = rid → d.1 = conn :=
+        fun d hd' => h.deferred d ((List.eraseIdx_sublist _ _).mem hd')
+      by_cases hc : isClosed s conn' = true
+      · simp only [hc, if_true]
+        exact ⟨h.lt, h.log, hsub⟩
+      · simp only [hc, Bool.false_eq_true, if_false]
+        refine ⟨h.lt, ?_, hsub⟩
+        intro c hm
+        simp only [List.mem_cons] at hm
+        rcases hm with hm | hm
+        · simp only [Obs.write.injEq] at hm
+          rw [hm.1]
+          exact h.deferred (conn', rid') (List.mem_of_getElem? hd) hm.2.symm
+        · exact h.log c hm
+  | execRun i =>
+    simp only [step]
+    cases hd : s.execQ[i]? with
+    | none => exact h
+    | some r => exact ⟨h.lt, h.log, h.deferred⟩
+  | loopRun i =>
+    simp only [step]
+    cases hd : s.loopQ[i]? with
+    | none => exact h
+    | some cause =>
+      refine ⟨h.lt, ?_, h.deferred⟩
+      intro c hm
+      simp only [List.mem_cons] at hm
+      rcases hm with hm | hm
+      · cases hm
+      · exact h.log c hm
+  | configChanged => exact ⟨h.lt, h.log, h.deferred⟩
+  | appRefresh => exact ⟨h.lt, h.log, h.deferred⟩
+  | appUnpair c =>
+    simp only [step]
+    split
+    · exact ⟨h.lt, h.log, h.deferred⟩
+    · exact h
+
+theorem own_run (conn rid : Nat) (s : Sys) (steps : List Step) (h : Own conn rid s) :
+    Own conn rid (run s steps) := by
+  induction steps generalizing s with
+  | nil => exact h
+  | cons st rest ih => exact ih _ (own_step conn rid s st h)
+
 
 end Hap.AdvertSys
